@@ -80,20 +80,25 @@ LenOp == Step([op |-> "len"], xs, [k |-> "int", v |-> Len(xs)], 0)
 CopyCtor == Step([op |-> "copy"], xs, Obj(xs), 0)      \* C(x): new object, same values
 
 \* ---- mutators ----------------------------------------------------------
-DoAppend(kind) ==
+\* The ...V actions take the *values* carried by the argument object explicitly (a sequence of
+\* ids); the model instantiates them with fresh ids, the trace specification with logged ones.
+AppendV(kind, a, used) ==
   LET call == [op |-> "append", kind |-> kind] IN
-  IF kind = "single" THEN Step(call, Append(xs, nextId), NoneRes, 1)
+  IF kind = "single" THEN Step(call, xs \o a, NoneRes, used)
   ELSE Failed(call, "Any")
+DoAppend(kind) == AppendV(kind, Fresh(1), 1)
 
-DoExtend(k) ==        \* argument: same-class object holding k values
-  Step([op |-> "extend", n |-> k], xs \o Fresh(k), NoneRes, k)
+ExtendV(a, used) ==        \* argument: same-class object holding Len(a) values
+  Step([op |-> "extend", n |-> Len(a)], xs \o a, NoneRes, used)
+DoExtend(k) == ExtendV(Fresh(k), k)
 
 ExtendWrong == Failed([op |-> "extend_wrong"], "Any")
 
-DoInsert(i, kind) ==
+InsertV(i, kind, a, used) ==
   LET call == [op |-> "insert", i |-> i, kind |-> kind] IN
-  IF kind = "single" THEN Step(call, InsertAt(xs, i, nextId), NoneRes, 1)
+  IF kind = "single" THEN Step(call, InsertAt(xs, i, a[1]), NoneRes, used)
   ELSE Failed(call, "Any")
+DoInsert(i, kind) == InsertV(i, kind, Fresh(1), 1)
 
 DoPop(i) ==
   LET call == [op |-> "pop", i |-> i] IN
@@ -110,11 +115,12 @@ DoDel(i) ==
   IF InRange(i, Len(xs)) THEN Step(call, RemoveAt(xs, i), NoneRes, 0)
   ELSE Failed(call, "IndexError")
 
-DoSetItem(i, kind) ==
+SetItemV(i, kind, a, used) ==
   LET call == [op |-> "setitem", i |-> i, kind |-> kind] IN
   IF kind # "single" THEN Failed(call, "Any")
-  ELSE IF InRange(i, Len(xs)) THEN Step(call, SetAt(xs, i, nextId), NoneRes, 1)
+  ELSE IF InRange(i, Len(xs)) THEN Step(call, SetAt(xs, i, a[1]), NoneRes, used)
   ELSE Failed(call, "IndexError")
+DoSetItem(i, kind) == SetItemV(i, kind, Fresh(1), 1)
 
 DoReverse == Step([op |-> "reverse"], Reverse(xs), NoneRes, 0)
 DoClear   == Step([op |-> "clear"], <<>>, NoneRes, 0)
